@@ -96,7 +96,7 @@ func (p dtSc) scenario() *sched.Scenario {
 			}
 		}
 		fin := func(e *vsched.Execution) sched.Outcome {
-			if !e.Deadlock && s != nil {
+			if !e.Deadlock && !e.Livelock && s != nil {
 				final = s.GetDataType() // everything closed: returns the stored type or *
 			}
 			return p.check(calls, final, e)
@@ -113,7 +113,7 @@ func (p dtSc) check(calls []*call, final string, e *vsched.Execution) sched.Outc
 		}
 	}
 	out := sched.Outcome{Key: fmt.Sprintf("gets=%v final=%s", gets, final), NonTrivial: true}
-	if e.Deadlock || len(e.Panics) > 0 {
+	if e.Deadlock || e.Livelock || len(e.Panics) > 0 {
 		return out
 	}
 	fail := func(cl, d string) sched.Outcome { out.Clause, out.Detail = cl, d; return out }
